@@ -41,6 +41,7 @@ OBLIGATIONS = [
     (P + "judge_holds_hmac", "judge_generic instantiated: hmac back-end, issued = cipher texts of any list of earlier saves"),
     (P + "judge_holds_aes", "judge_generic instantiated: aes back-end, issued = cipher texts of any earlier saves under any IVs, loading object in any IV state"),
     (P + "confidentiality_partial", "bookkeeping for confidentiality (PARTIAL; a.k.a. iv_fresh_per_object): IVs come from the entropy source at load(), once per object; block 0 of the CBC plaintext is a dummy; decrypt does not depend on the IV"),
+    (P + "encrypt_iv_independent_of_prior_decrypt", "bookkeeping (PARTIAL confidentiality): after ANY sequence of decryptions of client-supplied cipher texts, encrypt yields the same cipher text and encryption IV as without them; the IV slot each of cbc::encrypt/decrypt uses is generated from aes.cpp"),
     (P + "config_refusals", "session_pool::init refuses cbc without hmac, no method, mixed styles; every accepted signature-only configuration has a key of >= 16 bytes"),
 ]
 
@@ -488,6 +489,58 @@ def gen_keyed(c, hbin, cfgs, scale):
     return lines, desc
 
 
+def gen_load_then_save(c, cfgs, issued, ciphers):
+    """What a request does: load the presented (genuine) cookie, then save — on ONE encryptor object.  Two requests that
+    present the same cookie X and save the same payload must be issued different cookies; payloads with a common prefix
+    must not give cipher texts with a common prefix.  Also through the raw encryptor API (decrypt then encrypt)."""
+    rng = c.rng
+    lines, desc = [], []
+
+    def add(line, d=None):
+        lines.append(line); desc.append(d)
+    for ci, cfg in enumerate(cfgs):
+        if not cfg.is_aes:
+            continue
+        its = [it for it in issued if it["cfg"] == ci and it["t"] >= it["now"] and "same" not in it]
+        if not its:
+            continue
+        x = its[min(len(its) - 1, 5)]
+        now = x["now"]
+        pay = rbytes(rng, 40)
+        pay2 = pay[:24] + rbytes(rng, 16)          # common prefix: frame blocks 1 and 2 equal
+        grp = f"ls{ci}"
+        # request 1 and 2 on object A (load X, save P, load X, save P), request 3 on a fresh object B, then a prefix-sharing payload
+        oa, ob = f"s{ci}a", f"s{ci}b"
+        add(cfg.create(oa), {"op": "create", "cfg": ci})
+        for k in range(2):
+            add(f"load {oa} {now} {hexs(x['cookie'])}", {"op": "load", "cfg": ci, "now": now, "cookie": x["cookie"], "mut": "valid", "expect_ok": (x["t"], x["data"])})
+            add(f"save {oa} {now} {now + 60} {hexs(pay)}", {"op": "save", "cfg": ci, "now": now, "t": now + 60, "data": pay, "grp": grp, "ctx": len(lines)})
+        add(cfg.create(ob), {"op": "create", "cfg": ci})
+        add(f"load {ob} {now} {hexs(x['cookie'])}", {"op": "load", "cfg": ci, "now": now, "cookie": x["cookie"], "mut": "valid", "expect_ok": (x["t"], x["data"])})
+        add(f"save {ob} {now} {now + 60} {hexs(pay)}", {"op": "save", "cfg": ci, "now": now, "t": now + 60, "data": pay, "grp": grp, "ctx": len(lines)})
+        add(f"load {ob} {now} {hexs(x['cookie'])}", {"op": "load", "cfg": ci, "now": now, "cookie": x["cookie"], "mut": "valid", "expect_ok": (x["t"], x["data"])})
+        add(f"save {ob} {now} {now + 60} {hexs(pay2)}", {"op": "save", "cfg": ci, "now": now, "t": now + 60, "data": pay2, "grp": grp, "ctx": len(lines)})
+        # raw encryptor API: decrypt a genuine cipher text, then encrypt
+        cts = [z for z in ciphers if z["cfg"] == ci]
+        if cts and cfg.kind != "pool":
+            ct = cts[0]["cipher"]
+            p = rbytes(rng, 30)
+            for o2 in (f"s{ci}c", f"s{ci}d"):
+                add(cfg.create(o2), {"op": "create", "cfg": ci})
+                add(f"dec {o2} {hexs(ct)}", {"op": "dec", "cfg": ci, "cipher": ct, "plain": cts[0]["plain"]})
+                add(f"enc {o2} {hexs(p)}", {"op": "enc", "cfg": ci, "plain": p, "grp": grp + "raw", "ctx": len(lines)})
+                add(f"dec {o2} {hexs(ct)}", {"op": "dec", "cfg": ci, "cipher": ct, "plain": cts[0]["plain"]})
+                add(f"enc {o2} {hexs(p)}", {"op": "enc", "cfg": ci, "plain": p, "grp": grp + "raw", "ctx": len(lines)})
+    return lines, desc
+
+
+def common_prefix(a, b):
+    n = 0
+    while n < len(a) and n < len(b) and a[n] == b[n]:
+        n += 1
+    return n
+
+
 def gen_stage_b_raw(c, cfgs, ciphers, scale):
     """raw encryptor::decrypt on mutated cipher texts (through the encryptor objects, no cookie layer)"""
     rng = c.rng
@@ -603,7 +656,7 @@ def main():
         "std::string lengths < 2^64 (SizeOk); digest size < 2^32",
         "payload < 2^32 - 64 bytes for the aes round trip (uint32 length field; above that aes_cipher::encrypt overflows its buffer: outside the property's 0..64 KiB)",
         "time_t values within int64",
-        "confidentiality clause is PARTIAL: only IV/dummy-block bookkeeping is proved",
+        "confidentiality clause is PARTIAL: only IV/dummy-block bookkeeping is proved (confidentiality_partial, encrypt_iv_independent_of_prior_decrypt); equal / prefix-sharing payloads are additionally judged on the implementation (distinct cookies, no shared cipher prefix)",
     ]
     scale = 4 if c.tier == "thorough" else 1
 
@@ -731,6 +784,39 @@ def main():
     ib, mb = run_stage("load-mutations", lb, db)
     lr, dr = gen_stage_b_raw(c, cfgs, ciphers, scale)
     ir, mr = run_stage("decrypt-mutations", lr, dr)
+    # ---------------- load then save on one object (what a request does)
+    ll, dl = gen_load_then_save(c, cfgs, issued, ciphers)
+    il, ml = run_stage("load-then-save", ll, dl)
+    grp = {}
+    for k, (l, d, o) in enumerate(zip(ll, dl, il)):
+        if not d:
+            continue
+        if d["op"] == "load" and "expect_ok" in d:
+            t, data = d["expect_ok"]
+            if o != f"ok {t} {hexs(data)} cleared=0":
+                bad.append(("a genuine unexpired cookie was not loaded back", {"lines": [x for x in ll[:k] if x.split()[1] == l.split()[1]] + [l], "impl": o}))
+        if d["op"] == "dec" and d.get("plain") is not None and o != "ok " + hexs(d["plain"]):
+            bad.append(("encryptor round trip failed", {"lines": [x for x in ll[:k] if x.split()[1] == l.split()[1]] + [l], "impl": o}))
+        if "grp" in d and o.startswith("ok "):
+            v = unhex(o[3:])
+            ct = b64d(v[1:]) if d["op"] == "save" else v
+            grp.setdefault(d["grp"], []).append((k, ct, d))
+    nls = 0
+    for g, items in grp.items():
+        for a in range(len(items)):
+            for b in range(a + 1, len(items)):
+                nls += 1
+                (ka, ca, da_), (kb, cb, db_) = items[a], items[b]
+                cp = common_prefix(ca, cb)
+                same_payload = (da_.get("data", da_.get("plain")) == db_.get("data", db_.get("plain")))
+                if ca == cb or cp >= 16:
+                    oids = {ll[ka].split()[1], ll[kb].split()[1]}
+                    ctx = [x for x in ll[:max(ka, kb) + 1] if len(x.split()) > 1 and x.split()[1] in oids]
+                    bad.append(("an encrypting back-end that has loaded (decrypted) the presented cookie issues " +
+                                ("byte-identical cookies for equal payloads" if ca == cb else f"cipher texts sharing a {cp}-byte prefix" + (" for equal payloads" if same_payload else " for payloads with a common prefix")) +
+                                ": it reveals whether (prefixes of) two payloads are equal — the IV of the encryption depends on the client-supplied cookie",
+                                {"lines": ctx, "impl": [il[ka][:200], il[kb][:200]], "common_cipher_prefix_bytes": cp}))
+    c.extra_cov["load_then_save_cookie_pairs_compared"] = nls
     lk, dk = gen_keyed(c, hbin, cfgs, scale)
     ik, mk_ = run_stage("keyed-malformed", lk, dk)
     nk = 0
